@@ -27,6 +27,9 @@ CLAIMED = {
     "C20": dict(category="exploration", technique="run-time contracts evaluated on the real functions over enumerated / seeded bounded domains (bounded stand-in: this Python glue is outside the reach of the VC generator)", text="(in progress)", design_ref="DESIGN.md 4 (C20)", note=BASE_NOTE),
     "C12": dict(category="exploration", technique="run-time contracts evaluated on the real functions over enumerated / seeded bounded domains (bounded stand-in: this Python glue is outside the reach of the VC generator)", text="(in progress)", design_ref="DESIGN.md 4 (C12)", note=BASE_NOTE),
     "C19": dict(category="other", technique="call-site contract obligation (forwarded keyword arguments vs the documented pysam pileup interface) + run-time contract on a synthetic BAM (bounded)", text="(in progress)", design_ref="DESIGN.md 4 (C19)", note=BASE_NOTE),
+    "C06": dict(category="exploration", technique="run-time contracts on the real functions / CLI over synthetic inputs with content known by construction (bounded stand-in; the pysam / multiprocessing / string code is outside the reach of the VC generator)", text="(in progress)", design_ref="DESIGN.md 4 (C06)", note=BASE_NOTE),
+    "C07": dict(category="exploration", technique="run-time contracts on the real functions / CLI over synthetic inputs with content known by construction (bounded stand-in; the pysam / multiprocessing / string code is outside the reach of the VC generator)", text="(in progress)", design_ref="DESIGN.md 4 (C07)", note=BASE_NOTE),
+    "C08": dict(category="exploration", technique="run-time contracts on the real functions / CLI over synthetic inputs with content known by construction (bounded stand-in; the pysam / multiprocessing / string code is outside the reach of the VC generator)", text="(in progress)", design_ref="DESIGN.md 4 (C08)", note=BASE_NOTE),
     "C11": dict(
         category="proof",
         technique="contract-based deductive verification: sidecar contracts on the real functions, VCs generated from /repo source by pyvc, discharged by z3 (unbounded); run-time contracts on a bounded grid as stand-in for the not-yet-proved functions",
